@@ -254,7 +254,7 @@ class VerifyEnv:
 
     # ---- contracts at call sites -------------------------------------------------------------------------
     def apply_contract(self, ex, st, con, finfo, loc, node):
-        site = "L%d" % getattr(node, "lineno", 0)
+        site = getattr(node, "_site", None) or ("L%d" % getattr(node, "lineno", 0))
         c = Ctx(ex, st, loc, mode="call")
         short = finfo.qual.split(":")[1]
         for ax in con.ghost_axioms(c):
